@@ -155,3 +155,15 @@ contract("C12.push_error_context", file="hed/errors/error_reporter.py", func="Er
          ensures={"C12.context.given_value_is_kept_also_zero": "implies(context is not None, pushes == 1 and pushed == context)",
                   "C12.context.missing_value_is_neutral": "implies(context is None, pushes == 1 and (pushed == 0 or pushed == ''))"},
          assume=["only numeric context values (row / column numbers) are covered by the parameter type; the stack itself is opaque"])
+
+# C12 "sorting ... orders by file, then sidecar column and key, then row" at the entry points that sort: what the entry point hands back IS
+# the sorted list - the sort is the last thing that happens to it, and the only other ways out are the early outs known here
+# (decided on the statement list of the real function: back end "dataflow")
+for _cid, _file, _fn, _var, _early in (
+        ("C12.sidecar_entry_point_hands_back_the_sorted_list", "hed/validator/sidecar_validator.py", "SidecarValidator.validate", "issues", 1),
+        ("C12.table_entry_point_hands_back_the_sorted_list", "hed/validator/spreadsheet_validator.py", "SpreadsheetValidator.validate",
+         "issues", 0),
+        ("C12.schema_compliance_hands_back_the_sorted_list", "hed/schema/schema_compliance.py", "check_compliance", "issues_list", 0)):
+    contract(_cid, file=_file, func=_fn, params={}, returns="Opaque", enc="native", prop="C12",
+             ghost={"dataflow_only": True, "no_frame": True,
+                    "final_value": {"var": _var, "call": "sort_issues", "early_returns": _early}}, ensures={})
